@@ -190,13 +190,17 @@ def search(ctx, hints):
     """look for a token sequence (or source text) on which the real matcher raises"""
     import scan_real
     import scan_streams
+    import time
     fails = []
     caps = captured()
     rnd = ctx.rng("search")
+    t0 = time.time()
     for idx, (lang, role, expr) in enumerate(caps):
+        if time.time() - t0 > 150:        # time-boxed: the search supports the report, it is not the proof
+            break
         ser = patterns.expr(expr, [])[0]
         alpha = alphabet(ser)
-        seqs = [list(s) for n in range(1, 6 if len(alpha) <= 9 else 5) for s in itertools.product(alpha, repeat=n)]
+        seqs = [list(s) for n in range(1, 6 if len(alpha) <= 9 else 4) for s in itertools.product(alpha, repeat=n)][:20000]
         for _ in range(3000):
             seqs.append([rnd.choice(alpha) for _ in range(rnd.randint(3, 14))])
         for s, r in zip(seqs, real_run((idx, seqs))):
@@ -205,6 +209,8 @@ def search(ctx, hints):
                               "observed": r, "required": "no exception"})
                 break
     for lang, code in REGRESS_SOURCES + scan_streams.soups(ctx, 3000, "c15search"):
+        if time.time() - t0 > 240:
+            break
         r = scan_real.real_scan(lang, code)
         if r == "err 1":
             fails.append({"input": {"stream": "source", "language": lang, "code": code}, "observed": r, "required": "no exception"})
